@@ -335,7 +335,7 @@ func (self *Analyzer) listLiteralExpression(node pAst.ListLiteralExpression) ast
 		valExpression := self.expression(val)
 		newValues = append(newValues, valExpression)
 
-		if err := self.TypeCheck(valExpression.Type(), listType, TypeCheckOptions{}); err != nil && listType.Kind() != ast.AnyTypeKind {
+		if err := self.TypeCheck(valExpression.Type(), listType, noneLiteralOptions(valExpression, TypeCheckOptions{})); err != nil && listType.Kind() != ast.AnyTypeKind {
 			self.diagnostics = append(self.diagnostics, err.GotDiagnostic)
 			if err.ExpectedDiagnostic != nil {
 				self.diagnostics = append(self.diagnostics, *err.ExpectedDiagnostic)
@@ -559,10 +559,10 @@ func (self *Analyzer) infixExpression(node pAst.InfixExpression) ast.AnalyzedInf
 	if err := self.TypeCheck(
 		rhs.Type().SetSpan(node.Rhs.Span()),
 		lhs.Type().SetSpan(node.Lhs.Span()),
-		TypeCheckOptions{
+		noneLiteralOptions(rhs, TypeCheckOptions{
 			AllowFunctionTypes:          true,
 			IgnoreFnParamNameMismatches: false,
-		}); err != nil {
+		})); err != nil {
 		self.diagnostics = append(self.diagnostics, err.GotDiagnostic)
 		if err.ExpectedDiagnostic != nil {
 			self.diagnostics = append(self.diagnostics, *err.ExpectedDiagnostic)
@@ -689,7 +689,7 @@ func (self *Analyzer) assignExpression(node pAst.AssignExpression) ast.AnalyzedA
 		resultType = ast.NewNeverType()
 	}
 
-	if err := self.TypeCheck(rhs.Type(), lhs.Type(), TypeCheckOptions{}); err != nil {
+	if err := self.TypeCheck(rhs.Type(), lhs.Type(), noneLiteralOptions(rhs, TypeCheckOptions{})); err != nil {
 		self.diagnostics = append(self.diagnostics, err.GotDiagnostic)
 		if err.ExpectedDiagnostic != nil {
 			self.diagnostics = append(self.diagnostics, *err.ExpectedDiagnostic)
@@ -856,10 +856,10 @@ func (self *Analyzer) callArgs(fnType ast.FunctionType, args pAst.CallArgs, base
 					continue
 				}
 
-				if err := self.TypeCheck(argExpr.Type(), newParams[idx].Type, TypeCheckOptions{
+				if err := self.TypeCheck(argExpr.Type(), newParams[idx].Type, noneLiteralOptions(argExpr, TypeCheckOptions{
 					AllowFunctionTypes:          true,
 					IgnoreFnParamNameMismatches: false,
-				}); err != nil {
+				})); err != nil {
 					self.diagnostics = append(self.diagnostics, err.GotDiagnostic)
 				} else {
 					arguments = append(arguments, ast.AnalyzedCallArgument{
@@ -925,10 +925,10 @@ func (self *Analyzer) callArgs(fnType ast.FunctionType, args pAst.CallArgs, base
 					toCheck = varArgType.ParamTypes[idx]
 				}
 
-				if err := self.TypeCheck(argExpr.Type(), toCheck, TypeCheckOptions{
+				if err := self.TypeCheck(argExpr.Type(), toCheck, noneLiteralOptions(argExpr, TypeCheckOptions{
 					AllowFunctionTypes:          true,
 					IgnoreFnParamNameMismatches: false,
-				}); err != nil {
+				})); err != nil {
 					self.diagnostics = append(self.diagnostics, err.GotDiagnostic)
 				} else {
 					arguments = append(arguments, ast.AnalyzedCallArgument{
@@ -1353,10 +1353,10 @@ func (self *Analyzer) ifExpression(node pAst.IfExpression) ast.AnalyzedIfExpress
 		elseBlock = &elseBlockTemp
 
 		// the two blocks must have the identical type
-		if err := self.TypeCheck(elseBlock.ResultType, thenBlock.ResultType, TypeCheckOptions{
+		if err := self.TypeCheck(elseBlock.ResultType, thenBlock.ResultType, noneLiteralOptions(elseBlock.Expression, TypeCheckOptions{
 			AllowFunctionTypes:          true,
 			IgnoreFnParamNameMismatches: false,
-		}); err != nil {
+		})); err != nil {
 			err.GotDiagnostic.Notes = append(err.GotDiagnostic.Notes, "The `if` and `else` branches must result in the identical type")
 			self.diagnostics = append(self.diagnostics, err.GotDiagnostic)
 			if err.ExpectedDiagnostic != nil {
@@ -1365,6 +1365,10 @@ func (self *Analyzer) ifExpression(node pAst.IfExpression) ast.AnalyzedIfExpress
 			resultType = ast.NewUnknownType()
 		} else {
 			resultType = elseBlock.ResultType
+			// a bare `none` in the else branch takes the option type of the then branch
+			if elseBlock.Expression != nil && elseBlock.Expression.Kind() == ast.NoneLiteralExpressionKind {
+				resultType = thenBlock.ResultType
+			}
 
 			// only if both branches return `never`, use `never`
 			if thenBlock.ResultType.Kind() == ast.NeverTypeKind {
@@ -1424,10 +1428,10 @@ func (self *Analyzer) matchExpression(node pAst.MatchExpression) ast.AnalyzedMat
 
 		if !hadTypeErr && (resultType.Kind() == ast.UnknownTypeKind || resultType.Kind() == ast.NeverTypeKind) {
 			resultType = action.Type()
-		} else if err := self.TypeCheck(action.Type(), resultType, TypeCheckOptions{
+		} else if err := self.TypeCheck(action.Type(), resultType, noneLiteralOptions(action, TypeCheckOptions{
 			AllowFunctionTypes:          true,
 			IgnoreFnParamNameMismatches: false,
-		}); err != nil {
+		})); err != nil {
 			hadTypeErr = true
 			self.diagnostics = append(self.diagnostics, err.GotDiagnostic)
 			if err.ExpectedDiagnostic != nil {
@@ -1562,10 +1566,10 @@ func (self *Analyzer) tryExpression(node pAst.TryExpression) ast.AnalyzedTryExpr
 		resultType = tryBlock.ResultType.SetSpan(node.Range)
 	}
 
-	if err := self.TypeCheck(catchBlock.ResultType, tryBlock.ResultType, TypeCheckOptions{
+	if err := self.TypeCheck(catchBlock.ResultType, tryBlock.ResultType, noneLiteralOptions(catchBlock.Expression, TypeCheckOptions{
 		AllowFunctionTypes:          true,
 		IgnoreFnParamNameMismatches: false,
-	}); err != nil {
+	})); err != nil {
 		err.GotDiagnostic.Notes = append(err.GotDiagnostic.Notes, "The `try` and `catch` branches must result in the identical type")
 		self.diagnostics = append(self.diagnostics, err.GotDiagnostic)
 		if err.ExpectedDiagnostic != nil {
